@@ -70,6 +70,17 @@ CLAIMED.update({
          "The complete table tool (31 known + 4 unknown) x role x --enable-mutations x --enable-runtime-control x principal (absent/present/blank) is enumerated on the real mcp.Server over in-memory pipes in SQLite mode: tools/list = allowed set, refused calls leave queue listing and config directory unchanged, every mutating call leaves exactly one audit record with all seven fields, a foreign actor is refused; config_apply / management variants (valid write, preview, invalid content, foreign and traversing paths, unknown keys/modes) run over simfs with every touched path logged and the resulting file compiled.",
          "plain enumeration of a finite table, not schedule exploration; MCP admin-proxy mode, write_and_reload and runtime control beyond the gate are not exercised"),
 })
+CLAIMED.update({
+ "C15": ("exploration", "deterministic simulation: generated publish batches with one invalid item of every kind at every position through the real Admin handler vs reference validator and queue model",
+         "POST /messages/publish batches (1-12 items) with zero or one invalid item of every kind at every position, request-level faults, every route mode and publish flag, nearly full queues under both drop policies, on both backends; reject => listing unchanged and item_index names the offending item; accept => every item stored exactly once as a queued single-target message, or 503 with nothing stored when the queue model says full.",
+         "endpoint-scoped (managed) publish and publish_policy global switches are not generated; disk faults / crashes inside the batch transaction are covered at store level by C01; input sampling through the real wiring"),
+})
+CLAIMED["C14"] = (CLAIMED["C14"][0], CLAIMED["C14"][1] + "; admin API part through the real handlers",
+                  CLAIMED["C14"][2] + " Admin part: the same operations through the Admin HTTP handlers on populations created by publish (id lists with duplicates/unknown ids, filters with state/route/before/limit/preview); request-level rejections change nothing.",
+                  "MCP queue tools run the same store calls in SQLite mode and are only gated in C20; trusted: sim/model.go")
+CLAIMED["C04"] = (CLAIMED["C04"][0], CLAIMED["C04"][1] + "; Pull/Worker API part: 409/FailedPrecondition mapping and idempotent answers across the simulated 2 min window",
+                  CLAIMED["C04"][2] + " Pull API part: leases kept and presented later over HTTP (single and batch) and the Worker API; 204/200 iff current and unexpired, else 409, the only other success being the idempotent answer to a duplicate of an ack/nack that succeeded on this node within its TTL.",
+                  "nack and dead share one idempotency key per lease in the pull API (treated as intended, DESIGN Appendix B); trusted: sim/model.go")
 NA = {
  "C19": "config Parse/Format/Compile are pure functions of the text: no schedule, clock, I/O or fault for a simulation to decide (DESIGN.md §5)",
 }
